@@ -83,21 +83,21 @@ CLAIMED = {
               "invariant of states reached through the API, proved preserved."),
         technique='Lean 4 proof (induction over target trees and loop fuel; verified decision procedure for the put table; decode/encode round-trip) + per-run decide certificate; differential correspondence run',
     ),
-    'C01': dict(category='proof', text="Lean: step_sound (one step preserves the representation invariant WFx, never reaches UB, and commutes with the abstraction to the reference model where every handle is an independent Vec<u8>) for all 29 operations, all arguments, all environments/configurations; refines / refines_init (any script, by induction), frame (an op on one handle never changes what another reads), bytes_immutable. T2: the judge runs the Lean reference model Spec.step and the M1 model in lock-step with the real crate under the ledger allocator (random walks, boundary sweep, pair-exhaustive stream; debug+release) and evaluates the same predicates on the implementation's observations.", design='§7 C01, §3 M1', note="Trusted: Lean kernel; the hand transliteration of src/bytes.rs + src/bytes_mut.rs into Model/Core.lean (tied by T2 only: lock-step judge compares outcome, every live handle's kind / allocation class + offset / len / capacity / is_unique / contents and the allocator-event delta after every op; ~250k ops per quick run, 0 disagreements on the unchanged tree); std's Vec/Box behaviour and the allocator contract as modelled (checked by T2); OpOK (slices <= isize::MAX); 64-bit usize.",
+    'C01': dict(category='proof', text="Lean: step_sound (one step preserves the representation invariant WFx, never reaches UB, and commutes with the abstraction to the reference model where every handle is an independent Vec<u8>) for all 29 operations, all arguments, all environments/configurations; refines / refines_init (any script, by induction), frame (an op on one handle never changes what another reads), bytes_immutable. T2: the judge runs the Lean reference model Spec.step and the M1 model in lock-step with the real crate under the ledger allocator (random walks, boundary sweep, pair-exhaustive stream; debug+release) and evaluates the same predicates on the implementation's observations.", design='§7 C01, §3 M1', note="Trusted: Lean kernel; the hand transliteration of src/bytes.rs + src/bytes_mut.rs into Model/Core.lean (tied by T1 for vtable wiring and representation constants — Cert/C01 — and otherwise by T2 only: lock-step judge compares outcome, every live handle's kind / allocation class + offset / len / capacity / is_unique / contents and the allocator-event delta after every op; ~250k ops per quick run, 0 disagreements on the unchanged tree); std's Vec/Box behaviour and the allocator contract as modelled (checked by T2); OpOK (slices <= isize::MAX); 64-bit usize.",
         technique='Lean 4 proof: inductive representation invariant + refinement to a reference model over a hand-written executable model of the core; differential correspondence check (lock-step judge) under a ledger allocator'),
-    'C02': dict(category='proof', text="Lean: no_ub — from every well-formed state no operation with any argument value reaches a model-level UB (every raw-memory primitive of the model checks live/in-bounds/initialised/layout-exact/parity-decoded), in every configuration; invariant W1–W5 preserved (step_sound). T2: ledger allocator (layout-exact frees, red zones, poison+quarantine, unknown-pointer frees), every handle's [ptr, ptr+cap) inside one live block after every op, process-death detection, out-of-contract and near-usize::MAX arguments, debug and release. PARTIAL by nature: byte/allocation level only; provenance and aliasing rules of the Rust abstract machine are not expressible in M1 (see DESIGN).", design='§7 C02', note="Trusted: Lean kernel; the hand transliteration of src/bytes.rs + src/bytes_mut.rs into Model/Core.lean (tied by T2 only: lock-step judge compares outcome, every live handle's kind / allocation class + offset / len / capacity / is_unique / contents and the allocator-event delta after every op; ~250k ops per quick run, 0 disagreements on the unchanged tree); std's Vec/Box behaviour and the allocator contract as modelled (checked by T2); OpOK (slices <= isize::MAX); 64-bit usize.",
+    'C02': dict(category='proof', text="Lean: no_ub — from every well-formed state no operation with any argument value reaches a model-level UB (every raw-memory primitive of the model checks live/in-bounds/initialised/layout-exact/parity-decoded), in every configuration; invariant W1–W5 preserved (step_sound). T2: ledger allocator (layout-exact frees, red zones, poison+quarantine, unknown-pointer frees), every handle's [ptr, ptr+cap) inside one live block after every op, process-death detection, out-of-contract and near-usize::MAX arguments, debug and release, both address parities; BufMut side: guard bytes around every fixed-size destination in the write stream of C11 and the reviewed unsafe-site inventory (Cert/C17); thorough tier adds AddressSanitizer and a Miri sample as support. PARTIAL by nature: byte/allocation level only; provenance and aliasing rules of the Rust abstract machine are not expressible in M1 (see DESIGN).", design='§7 C02', note="Trusted: Lean kernel; the hand transliteration of src/bytes.rs + src/bytes_mut.rs into Model/Core.lean (tied by T1 for vtable wiring and representation constants — Cert/C01 — and otherwise by T2 only: lock-step judge compares outcome, every live handle's kind / allocation class + offset / len / capacity / is_unique / contents and the allocator-event delta after every op; ~250k ops per quick run, 0 disagreements on the unchanged tree); std's Vec/Box behaviour and the allocator contract as modelled (checked by T2); OpOK (slices <= isize::MAX); 64-bit usize.",
         technique='Lean 4 proof: inductive representation invariant + refinement to a reference model over a hand-written executable model of the core; differential correspondence check (lock-step judge) under a ledger allocator'),
     'C03': dict(category='proof', text="Lean: the ledger invariant evOKB over the event history (every heap region allocated exactly once with its size, deallocated exactly once with that size iff dead, non-heap memory never allocated/freed by the crate, every owner has as_ref called exactly once and is dropped exactly once iff its control block is gone) is preserved by every operation incl. panics (evOK_step); no_leak (no live handle => no live heap region / control block), alive_while_viewed, owner_alive_while_viewed, all_released_once; drop orders are ordinary scripts, so every order is covered. T2: ledger balanced at the end of every script after dropping the survivors in random order, instrumented owners (as_ref / drop counters), dealloc events layout-exact.", design='§7 C03', note="As C01 (hand-written M1 tied by T2); Box<Owned<T>> drop glue calls T::drop once (std).",
         technique='Lean 4 proof: inductive invariant over the monotone event history of a hand-written executable model of the core; differential correspondence check under a ledger allocator'),
-    'C04': dict(category='proof', text='Lean: exclusivity (exclusiveB) and in-bounds (handleOKB) are conjuncts of the invariant preserved by step_sound; reserve_post (capacity-len >= n, len unchanged; contents by refines), reserve_unrepresentable (panics in every configuration), try_reclaim_post (true: same guarantee, no byte-buffer allocation; false: address/len/cap unchanged). T2: disjointness and containment of all BytesMut capacity ranges against the ledger after every op, fill-spare-capacity-then-reread, reserve/try_reclaim arguments around 0, spare, allocation size, isize::MAX, usize::MAX at every offset.', design='§7 C04', note="Trusted: Lean kernel; the hand transliteration of src/bytes.rs + src/bytes_mut.rs into Model/Core.lean (tied by T2 only: lock-step judge compares outcome, every live handle's kind / allocation class + offset / len / capacity / is_unique / contents and the allocator-event delta after every op; ~250k ops per quick run, 0 disagreements on the unchanged tree); std's Vec/Box behaviour and the allocator contract as modelled (checked by T2); OpOK (slices <= isize::MAX); 64-bit usize.",
+    'C04': dict(category='proof', text='Lean: exclusivity (exclusiveB) and in-bounds (handleOKB) are conjuncts of the invariant preserved by step_sound; reserve_post (capacity-len >= n, len unchanged; contents by refines), reserve_unrepresentable (panics in every configuration), try_reclaim_post (true: same guarantee, no byte-buffer allocation; false: address/len/cap unchanged). T2: disjointness and containment of all BytesMut capacity ranges against the ledger after every op, fill-spare-capacity-then-reread, reserve/try_reclaim arguments around 0, spare, allocation size, isize::MAX, usize::MAX at every offset.', design='§7 C04', note="Trusted: Lean kernel; the hand transliteration of src/bytes.rs + src/bytes_mut.rs into Model/Core.lean (tied by T1 for vtable wiring and representation constants — Cert/C01 — and otherwise by T2 only: lock-step judge compares outcome, every live handle's kind / allocation class + offset / len / capacity / is_unique / contents and the allocator-event delta after every op; ~250k ops per quick run, 0 disagreements on the unchanged tree); std's Vec/Box behaviour and the allocator contract as modelled (checked by T2); OpOK (slices <= isize::MAX); 64-bit usize.",
         technique='Lean 4 proof: inductive representation invariant + refinement to a reference model over a hand-written executable model of the core; differential correspondence check (lock-step judge) under a ledger allocator'),
-    'C07': dict(category='proof', text="Lean: zero_copy_{clone,slice,splitOff,splitTo,inplace(truncate/clear/freeze/from Vec),advance,unsplit,tryIntoMut}: result handles at source address + logical offset (also for empty split results), no alloc event, no region's data changed. T2: as_ptr equations on source and result (ledger block + offset) and no align-1 allocation in the op's ledger delta.", design='§7 C07', note="Trusted: Lean kernel; the hand transliteration of src/bytes.rs + src/bytes_mut.rs into Model/Core.lean (tied by T2 only: lock-step judge compares outcome, every live handle's kind / allocation class + offset / len / capacity / is_unique / contents and the allocator-event delta after every op; ~250k ops per quick run, 0 disagreements on the unchanged tree); std's Vec/Box behaviour and the allocator contract as modelled (checked by T2); OpOK (slices <= isize::MAX); 64-bit usize.",
+    'C07': dict(category='proof', text="Lean: zero_copy_{clone,slice,splitOff,splitTo,inplace(truncate/clear/freeze/from Vec),advance,unsplit,tryIntoMut}: result handles at source address + logical offset (also for empty split results), no alloc event, no region's data changed. T2: as_ptr equations on source and result (ledger block + offset) and no align-1 allocation in the op's ledger delta.", design='§7 C07', note="Trusted: Lean kernel; the hand transliteration of src/bytes.rs + src/bytes_mut.rs into Model/Core.lean (tied by T1 for vtable wiring and representation constants — Cert/C01 — and otherwise by T2 only: lock-step judge compares outcome, every live handle's kind / allocation class + offset / len / capacity / is_unique / contents and the allocator-event delta after every op; ~250k ops per quick run, 0 disagreements on the unchanged tree); std's Vec/Box behaviour and the allocator contract as modelled (checked by T2); OpOK (slices <= isize::MAX); 64-bit usize.",
         technique='Lean 4 proof: inductive representation invariant + refinement to a reference model over a hand-written executable model of the core; differential correspondence check (lock-step judge) under a ledger allocator'),
-    'C08': dict(category='proof', text="Lean: is_unique_iff (answer = 'no other live handle names the storage', false for static/owner), try_into_mut_iff (succeeds exactly when unique, same region/offset/len, no byte-buffer allocation), reclaim_whole / reserve_whole_no_alloc (an empty handle alone on its allocation gets try_reclaim(n) = true for every n up to the allocation size, without allocating). T2: is_unique of every Bytes after every op against the set of live handles sharing the ledger block / control block.", design='§7 C08', note="Trusted: Lean kernel; the hand transliteration of src/bytes.rs + src/bytes_mut.rs into Model/Core.lean (tied by T2 only: lock-step judge compares outcome, every live handle's kind / allocation class + offset / len / capacity / is_unique / contents and the allocator-event delta after every op; ~250k ops per quick run, 0 disagreements on the unchanged tree); std's Vec/Box behaviour and the allocator contract as modelled (checked by T2); OpOK (slices <= isize::MAX); 64-bit usize.",
+    'C08': dict(category='proof', text="Lean: is_unique_iff (answer = 'no other live handle names the storage', false for static/owner), try_into_mut_iff (succeeds exactly when unique, same region/offset/len, no byte-buffer allocation), reclaim_whole / reserve_whole_no_alloc (an empty handle alone on its allocation gets try_reclaim(n) = true for every n up to the allocation size, without allocating). T2: is_unique of every Bytes after every op against the set of live handles sharing the ledger block / control block.", design='§7 C08', note="Trusted: Lean kernel; the hand transliteration of src/bytes.rs + src/bytes_mut.rs into Model/Core.lean (tied by T1 for vtable wiring and representation constants — Cert/C01 — and otherwise by T2 only: lock-step judge compares outcome, every live handle's kind / allocation class + offset / len / capacity / is_unique / contents and the allocator-event delta after every op; ~250k ops per quick run, 0 disagreements on the unchanged tree); std's Vec/Box behaviour and the allocator contract as modelled (checked by T2); OpOK (slices <= isize::MAX); 64-bit usize.",
         technique='Lean 4 proof: inductive representation invariant + refinement to a reference model over a hand-written executable model of the core; differential correspondence check (lock-step judge) under a ledger allocator'),
-    'C13': dict(category='proof', text="Lean: panic_atomic (a panicking call leaves a well-formed state whose abstraction is the previous one — contents, lengths, kinds — except the handle moved into unsplit), no_ub for all argument values. T2: catch_unwind around every call, full handle table compared with the pre-state after every panic, script continues and ends with a balanced ledger; 'mustPanic' contract oracle (documented panics happen, in-contract calls do not panic).", design='§7 C13', note="Trusted: Lean kernel; the hand transliteration of src/bytes.rs + src/bytes_mut.rs into Model/Core.lean (tied by T2 only: lock-step judge compares outcome, every live handle's kind / allocation class + offset / len / capacity / is_unique / contents and the allocator-event delta after every op; ~250k ops per quick run, 0 disagreements on the unchanged tree); std's Vec/Box behaviour and the allocator contract as modelled (checked by T2); OpOK (slices <= isize::MAX); 64-bit usize.",
+    'C13': dict(category='proof', text="Lean: panic_atomic (a panicking call leaves a well-formed state whose abstraction is the previous one — contents, lengths, kinds — except the handle moved into unsplit), no_ub for all argument values. T2: catch_unwind around every call, full handle table compared with the pre-state after every panic, script continues and ends with a balanced ledger; 'mustPanic' contract oracle (documented panics happen, in-contract calls do not panic).", design='§7 C13', note="Trusted: Lean kernel; the hand transliteration of src/bytes.rs + src/bytes_mut.rs into Model/Core.lean (tied by T1 for vtable wiring and representation constants — Cert/C01 — and otherwise by T2 only: lock-step judge compares outcome, every live handle's kind / allocation class + offset / len / capacity / is_unique / contents and the allocator-event delta after every op; ~250k ops per quick run, 0 disagreements on the unchanged tree); std's Vec/Box behaviour and the allocator contract as modelled (checked by T2); OpOK (slices <= isize::MAX); 64-bit usize.",
         technique='Lean 4 proof: inductive representation invariant + refinement to a reference model over a hand-written executable model of the core; differential correspondence check (lock-step judge) under a ledger allocator'),
-    'C18': dict(category='proof', text="Lean theorems over the recycling model (allocation size, offset, len, cap, outstanding parts, pinned older allocations, allocation count; reserve_inner's decisions), by induction over histories of ANY length: alloc_size_bounded (every allocation the buffer ever lives in, current or pinned, <= max(A0, 4M, 8)), live_bounded (peak live <= (retained allocations + 1) x that), big_enough_no_alloc (once the allocation reached 2M a refill with all parts dropped never allocates), alloc_doubles, allocs_bounded (with every part dropped before the refill the total number of byte-buffer allocations <= log2(4M+8)+3, independent of the number of rounds), rinv_step; the 'in particular' clause is reclaim_whole / reserve_whole_no_alloc over M1 (Props/C08). T2: the recycling model runs in lock-step with a real BytesMut under the ledger allocator over 10^3 (quick) to 3*10^5 (thorough) rounds of 8 consumption styles x retention windows x sizes, comparing allocation size, offset, len, capacity, allocation count and live bytes after every operation, and the bound functions are checked on the implementation's own ledger.", design='§7 C18', note="Trusted: Lean kernel; the recycling model is a second, coarser transliteration of reserve_inner tied by T2 only (7.8M operations, 0 disagreements); the usage-pattern hypotheses HistOK / Recycled (leftover + message <= M; parts dropped before the refill) are assumptions about the caller; std Vec growth policy.",
+    'C18': dict(category='proof', text="Lean theorems over the recycling model (allocation size, offset, len, cap, outstanding parts, pinned older allocations, allocation count; reserve_inner's decisions), by induction over histories of ANY length: alloc_size_bounded (every allocation the buffer ever lives in, current or pinned, <= max(A0, 4M, 8)), live_bounded (peak live <= (retained allocations + 1) x that), big_enough_no_alloc (once the allocation reached 2M a refill with all parts dropped never allocates), alloc_doubles, allocs_bounded (with every part dropped before the refill the total number of byte-buffer allocations <= log2(4M+8)+3, independent of the number of rounds), rinv_step; the 'in particular' clause is reclaim_whole / reserve_whole_no_alloc over M1 (Props/C08). REFINEMENT TO M1 (Props/C18Refine, C18RefineOps): with the abstraction RecView, reserve (all four branches of reserve_inner), advance, truncate, extend_from_slice, split_to, split, drop of a part, split_off of the tail and unsplit of a contiguous part of M1 each refine the corresponding step of the recycling model incl. the allocation count (step_*_refines, run_refines), and alloc_size_bounded_M1 transfers the size bound to M1 histories. T2: the recycling model runs in lock-step with a real BytesMut under the ledger allocator over 10^3 (quick) to 3*10^5 (thorough) rounds of 8 consumption styles x retention windows x sizes, comparing allocation size, offset, len, capacity, allocation count and live bytes after every operation, and the bound functions are checked on the implementation's own ledger.", design='§7 C18', note="Trusted: Lean kernel; M1 (hand-written, tied by T2) — the recycling model itself is proved to refine M1 except for the round trip through Bytes and the pinned-allocation list (T2 only: 7.8M operations, 0 disagreements), under the side conditions listed in DESIGN §13 (advance past MAX_VEC_POS, two unsplit corner cases); the usage-pattern hypotheses HistOK / Recycled (leftover + message <= M; parts dropped before the refill) are assumptions about the caller; std Vec growth policy.",
         technique='Lean 4 proof: induction over histories with a potential/invariant argument on a hand-written arithmetic model; differential correspondence check under a ledger allocator'),
     'C16': dict(category='proof', text="Lean over M1: cfg_irrelevant (from every well-formed state, every operation gives the SAME outcome and state whether overflow checks and debug assertions are on or off: no unchecked +/- of the model leaves usize, no debug_assert fires), parity_irrelevant (running under any allocator parity and then forgetting parity = forgetting parity first and running with the all-even allocator: a simulation, so outcomes, contents, lengths, capacities and uniqueness coincide), erase_WFx, abs_erase. T1: inventory of every configuration-dependent site of src/** (83: cfg/cfg_attr attributes, cfg! macros, 28 debug assertions) regenerated each run and compared by a `decide +kernel` certificate with the reviewed, classified list (a new debug_assert / cfg branch breaks it). T2: identical seeded scripts (random walks, boundary sweep, pair-exhaustive) run on the real crate under {debug, release} x {even, odd} (thorough: alternating parity, no-default-features and extra-platforms builds) and the observable projection (outcome incl. panics, every handle's kind/len/capacity/is_unique/contents) is compared script by script; each configuration is also judged against M1. PARTIAL for the feature-set clause: std/no-std/extra-platforms are not distinguished by the model (review of the cfg inventory + T2 in the thorough tier only).", design='§7 C16', note="Trusted: as C01 (hand-written M1 tied by T2) + the review of the cfg-site inventory (class per site) + T1 extractor for it; release profile of the harness = overflow-checks off, debug-assertions off.",
         technique='Lean 4 proof: configuration-independence and parity-simulation theorems over a hand-written executable model of the core + per-run decide certificate over a site inventory translated from the source; differential runs of the real crate across configurations'),
